@@ -115,6 +115,16 @@ class Interp:
                     v -= 1 << w
                 return v
             raise Decline('conversion at %s' % loc_str(e))
+        if k == 'un' and e.get('op') in ('++', '--'):
+            # a counter stepped inside an expression (`while (i-- != 0)`): its value before or after the step
+            l = e['e']
+            while l.get('k') in ('paren', 'load'):
+                l = l['e']
+            if l.get('k') == 'ref' and l.get('rk') == 'local' and isinstance(env.get(l['id']), int) and not isinstance(env.get(l['id']), bool):
+                before = env[l['id']]
+                env[l['id']] = before + (1 if e['op'] == '++' else -1)
+                return before if e.get('post') else env[l['id']]
+            raise Decline('increment at %s' % loc_str(e))
         if k == 'un':
             op = e.get('op')
             v = self.ev(e['e'], env)
